@@ -916,12 +916,10 @@ class AsyncFIXConnection:
                 return
 
             # Expecting test_req_id
-            try:
-                msg_test_id = int(hbt_msg.get(FTag.TestReqID, "0"))
-            except Exception:
-                msg_test_id = 0
+            # TestReqID is echoed as it was sent (int() reads '+1', ' 1', '01' too)
+            msg_test_id = hbt_msg.get(FTag.TestReqID, "")
 
-            if self._test_req_id != msg_test_id:
+            if str(self._test_req_id) != msg_test_id:
                 await self.disconnect(
                     ConnectionState.DISCONNECTED_BROKEN_CONN,
                     logout_message="Invalid TestRequest(TestReqID) received",
